@@ -163,4 +163,51 @@ theorem private_rejected (deps : List ModuleExports) (d : ModuleExports) (imp : 
 example : rejectedNames [⟨"m", ["open_"]⟩] ⟨.module, ["m", "secret"], false, 0⟩ [] = ["secret"] := by decide
 example : rejectedNames [⟨"m", ["open_"]⟩] ⟨.from_, ["m"], false, 0⟩ ["open_", "secret"] = ["secret"] := by decide
 
+/-- A name is exported exactly when a `pub` declaration carries it: its own name, or — for a `pub` enum —
+one of its variants.  Nothing of a private declaration is ever exported. -/
+theorem exported_iff (ds : List MDecl) (n : String) :
+    n ∈ exportedNames ds ↔
+      ∃ d ∈ ds, d.isPub = true ∧ (n = d.name ∨ (d.kind = .enum_ ∧ n ∈ d.variants)) := by
+  unfold exportedNames
+  simp only [List.mem_flatMap]
+  constructor
+  · rintro ⟨d, hd, hn⟩
+    refine ⟨d, hd, ?_⟩
+    unfold declExports at hn
+    cases hp : d.isPub <;> simp only [hp] at hn
+    · simp at hn
+    · refine ⟨rfl, ?_⟩
+      cases hk : d.kind <;> simp only [hk] at hn <;> simp at hn
+      case enum_ =>
+        rcases hn with h | h
+        · exact Or.inl h
+        · exact Or.inr ⟨rfl, h⟩
+      all_goals exact Or.inl hn
+  · rintro ⟨d, hd, hp, hn⟩
+    refine ⟨d, hd, ?_⟩
+    unfold declExports
+    simp only [hp, if_true]
+    rcases hn with h | ⟨hk, h⟩
+    · cases d.kind <;> simp [h]
+    · simp [hk, h]
+
+/-- Importing by name anything a module's private declarations introduce (the declaration itself, or a
+variant of a private enum) is rejected, in both spellings. -/
+theorem private_decl_rejected (ds : List MDecl) (key name : String) (imp : Import) (items : List String)
+    (hkey : "_".intercalate (match imp.form with
+          | .from_ => imp.segments
+          | .module => if imp.segments.length > 1 then imp.segments.dropLast else []) = key)
+    (hnot : ¬ ∃ d ∈ ds, d.isPub = true ∧ (name = d.name ∨ (d.kind = .enum_ ∧ name ∈ d.variants)))
+    (hname : (imp.form = .from_ ∧ name ∈ items) ∨
+             (imp.form = .module ∧ imp.segments.length > 1 ∧ imp.segments.getLast! = name)) :
+    name ∈ rejectedNames [moduleExports key ds] imp items := by
+  apply private_rejected [moduleExports key ds] (moduleExports key ds) imp items name
+  · simp [List.find?, moduleExports, hkey]
+  · have : name ∉ exportedNames ds := fun h => hnot ((exported_iff ds name).1 h)
+    simpa [moduleExports] using this
+  · exact hname
+
+example : exportedNames [⟨.enum_, "Hidden", false, ["Circle", "Square"]⟩, ⟨.enum_, "Color", true, ["Red"]⟩,
+    ⟨.function, "describe", true, []⟩, ⟨.const, "K", false, []⟩] = ["Color", "Red", "describe"] := by decide
+
 end Incan.Imports
